@@ -106,7 +106,7 @@ def sweep(pid, mod, verbose=True):
                     print(f"NOISY-RULE property={pid} benign variant `{name}`: exit {code} {last[:2]}")
     if verbose:
         print(f"liveness {pid}: mutants {res['mutants_detected']}/{res['mutants_generated']} detected "
-              f"({res['mutants_stale']} stale); benign {res['benign_silent']}/{res['benign_variants']} silent")
+              f"({res['mutants_stale']} stale); benign {res['benign_silent']}/{res['benign_variants'] - res['benign_stale']} silent ({res['benign_stale']} stale: no longer apply to the repaired tree)")
     return res
 
 
